@@ -551,6 +551,13 @@ fn structured_strings() -> Vec<StrCase> {
                 }
                 v.extend_from_slice(post);
                 push("long-bracket-candidates", v.clone());
+                // the same with a leading line break (the lexers drop the first one, the writer
+                // must emit an extra one — on every path, with and without `]` in the value)
+                let mut nl = vec![b'\n'];
+                nl.extend_from_slice(&v);
+                push("long-bracket-leading-newline", nl.clone());
+                nl.insert(0, b'\n');
+                push("long-bracket-leading-newline", nl);
                 // one byte that forces the quoted form
                 for forced in [&b"\t"[..], b"\r", b"\x7f", b"\xc3\xa9", b"\xff", b"\0"] {
                     let mut w = v.clone();
@@ -1412,11 +1419,25 @@ fn check_from_f64(report: &mut Report, doubles: &[(f64, &'static str)]) {
     struct Out {
         texts: Vec<(String, Result<String, String>)>,
         inner: Option<(bool, NumberExpression)>,
+        tree: String,
+    }
+    fn tree_of(e: &Expression) -> String {
+        match e {
+            Expression::Number(n) => format!("L({})", lit_wire(n)),
+            Expression::Unary(u) if u.operator() == darklua_core::nodes::UnaryOperator::Minus => {
+                format!("N({})", tree_of(u.get_expression()))
+            }
+            Expression::Binary(b) if b.operator() == BinaryOperator::Slash => {
+                format!("D({},{})", tree_of(b.left()), tree_of(b.right()))
+            }
+            _ => "?".to_owned(),
+        }
     }
     let outs: Vec<(Out, Vec<String>)> = par_chunks(doubles, |model, chunk| {
         let mut res = Vec::new();
         for (x, _) in chunk {
             let expr = guarded(|| Expression::from(*x));
+            let tree = expr.as_ref().map(tree_of).unwrap_or_else(|_| "panic".to_owned());
             let (texts, inner) = match &expr {
                 Ok(e) => {
                     let inner = match e {
@@ -1439,13 +1460,26 @@ fn check_from_f64(report: &mut Report, doubles: &[(f64, &'static str)]) {
             if let Some((_, n)) = &inner {
                 lines.push(format!("c13.wnum {}", lit_wire(n)));
             }
+            lines.push(format!("c13.fromf64 {}", f64_wire(*x)));
             let answers = model.ask_batch(&lines);
-            res.push((Out { texts, inner }, answers));
+            res.push((Out { texts, inner, tree }, answers));
         }
         res
     });
     for ((x, family), (out, answers)) in doubles.iter().zip(outs) {
         report.hist("from-f64-family", family);
+        // the tree itself against the model of `From<f64>` (decision structure, recorded exponent)
+        let model_tree = answers.last().cloned().unwrap_or_default();
+        report.hist("from-f64-tree", if out.tree.starts_with('D') { "division" } else if out.tree.starts_with('N') { "negation" } else if out.tree.contains(":n:") { "plain" } else { "with-exponent" });
+        if model_tree != out.tree {
+            report.violation(Violation {
+                kind: "correspondence".into(),
+                check: "from-f64-tree".into(),
+                what: format!("Expression::from({:e}) builds {}, model {}", x, out.tree, model_tree),
+                input: json!({"kind": "from-f64", "double": f64_wire(*x)}),
+                failing_input_found: false,
+            });
+        }
         for (i, (gname, text)) in out.texts.iter().enumerate() {
             report.case(Some(("from", gname.as_str(), x.to_bits())));
             let input = json!({"kind": "from-f64", "generator": gname, "double": f64_wire(*x)});
@@ -1475,7 +1509,7 @@ fn check_from_f64(report: &mut Report, doubles: &[(f64, &'static str)]) {
             }
             if let Some((negated, _)) = &out.inner {
                 let model_text = answers
-                    .last()
+                    .get(answers.len().wrapping_sub(2))
                     .and_then(|m| unhex(m))
                     .map(|b| format!("{}{}", if *negated { "-" } else { "" }, String::from_utf8_lossy(&b)));
                 let stripped: String = text.chars().filter(|c| *c != ' ' && *c != '\n').collect();
